@@ -13,10 +13,10 @@
 (***************************************************************************)
 EXTENDS Alliance
 
-CONSTANTS FixF1, FixF2, FixF4, FixF5, FixF6, FixF7    \* which repairs the tree under test contains (exact layer only)
-
-Msg(p, m) == [p |-> p, m |-> m]
+\* a violation message; kf names the listed known finding whose root-cause operator holds for it ("" = none)
+Msg(p, m) == [p |-> p, m |-> m, kf |-> ""]
 Check(p, cond, m) == IF cond THEN {} ELSE {Msg(p, m)}
+CheckK(p, cond, kf, m) == IF cond THEN {} ELSE {[p |-> p, m |-> m, kf |-> kf]}
 
 -----------------------------------------------------------------------------
 (* rationals as <<num, den>> with den > 0, over BigNum *)
@@ -130,7 +130,11 @@ C02_State(s) ==
 (* ghost ledgers *)
 \* unb: sequence of [d, v, a, amt, due]  — what the unbonding queue must contain
 \* red: sequence of [d, a, src, dst, amt, due] — pending redelegations as requested
-GhostInit == [unb |-> <<>>, red |-> <<>>, stall |-> FALSE, dep |-> <<>>]
+\* slashed: a slash happened while reward indices existed (root cause K1: token values of positions were re-scaled
+\*          under rewards that were already accrued)
+\* k2:      per reward denom, the over-credit that the half-even rounding of the reward index can have produced so far
+\*          (root cause K2); zero for small stakes
+GhostInit == [unb |-> <<>>, red |-> <<>>, stall |-> FALSE, dep |-> <<>>, slashed |-> FALSE, k2 |-> NoCoins]
 LedgerOfState(s) ==
   LET xs == SortBy(UnbEntries(s), LAMBDA x : <<x[1][1], DelIdx(x[1][2]), x[2]>>)
   IN  [i \in DOMAIN xs |-> [d |-> s.unbQ[xs[i][1]][xs[i][2]].d, v |-> s.unbQ[xs[i][1]][xs[i][2]].v, a |-> s.unbQ[xs[i][1]][xs[i][2]].a,
@@ -163,13 +167,30 @@ GhostNext(gh, pre, rec, post) ==
                 [] OTHER -> gh.red
       dep1 == IF rec.ev = "Delegate" /\ rec.res.ok THEN Append(gh.dep, [k |-> <<e.d, e.v, e.a>>, t |-> pre.now]) ELSE gh.dep
       dep2 == SelectSeq(dep1, LAMBDA x : x.k \in DOMAIN post.dels)
-  IN  [unb |-> unb2, red |-> red1, stall |-> gh.stall, dep |-> dep2]
+      slashed2 == gh.slashed \/ (SlashValid(rec) /\ ValExists(pre, e.v) /\ ~IsEmptyMap(Info(pre, e.v).vshares)
+                                 /\ \E w \in DOMAIN pre.vals : DOMAIN pre.vals[w].hist # {})
+      \* index updates of this step: (validator, alliance, reward denom) whose index grew
+      upd == {<<v, k[1], k[2]>> : v \in DOMAIN post.vals \cap DOMAIN pre.vals, k \in {}} \cup
+             UNION {{<<v, k[1], k[2]>> : k \in {k \in DOMAIN post.vals[v].hist : k \notin DOMAIN Info(pre, v).hist \/ Info(pre, v).hist[k] # post.vals[v].hist[k]}} : v \in DOMAIN post.vals}
+      inc(rd) == BSum({u \in upd : u[3] = rd /\ u[2] \in DOMAIN pre.assets},
+                      LAMBDA u : BQuo(BMul("4", BAdd(TruncInt(ValTokens(pre.assets[u[2]], Info(pre, u[1]), u[2])), Get(post.bank.rewards, rd))), ONE))
+      k22 == CoinsAdd(gh.k2, [rd \in {rd \in {u[3] : u \in upd} : ~IsZero(inc(rd))} |-> inc(rd)])
+  IN  [unb |-> unb2, red |-> red1, stall |-> gh.stall, dep |-> dep2, slashed |-> slashed2, k2 |-> k22]
 
 -----------------------------------------------------------------------------
 (* C02 / C07: unbondings *)
 UserDelta(pre, post, d, a) == BSub(Get(UserCoins(post, d), a), Get(UserCoins(pre, d), a))
 AllUsers(pre, post) == DOMAIN pre.bank.users \cup DOMAIN post.bank.users
 AllDenomsOf(pre, post) == UNION {DOMAIN UserCoins(pre, d) \cup DOMAIN UserCoins(post, d) : d \in AllUsers(pre, post)}
+
+\* users received coins of denom a only out of the rewards pool (reward payouts may be in an alliance denom that was
+\* recycled through the fee collector), never out of custody
+PaidOnlyRewards(pre, post, a) ==
+  LET withdrawn == BSum({v \in DOMAIN pre.env.vals : HasMod(pre, v) /\ v \in DOMAIN post.env.vals},
+                        LAMBDA v : BSub(Get(Pending(pre, v), a), Get(Pending(post, v), a)))
+      paid == BSum(AllUsers(pre, post), LAMBDA d : UserDelta(pre, post, d, a))
+  IN  /\ \A d \in AllUsers(pre, post) : ~IsNeg(UserDelta(pre, post, d, a))
+      /\ BLe(paid, BAdd(BSub(Get(pre.bank.rewards, a), Get(post.bank.rewards, a)), BMax("0", withdrawn)))
 
 C02_Step(pre, rec, post, gh) ==
   LET e == rec.args
@@ -184,7 +205,7 @@ C02_Step(pre, rec, post, gh) ==
       ELSE IF rec.ev = "Undelegate" /\ rec.res.ok THEN
         Check("C02", BagOfSeq(Append(gh.unb, [d |-> e.d, v |-> e.v, a |-> e.a, amt |-> e.x, due |-> pre.now + pre.env.unbonding])) = UnbBagOfState(post),
               "undelegation of " \o e.x \o " " \o e.a \o " did not produce exactly one pending entry of that amount due at t + unbonding period")
-        \cup Check("C02", \A d \in AllUsers(pre, post) : UserDelta(pre, post, d, e.a) = "0", "undelegation paid out staked coins immediately")
+        \cup Check("C02", PaidOnlyRewards(pre, post, e.a), "undelegation paid out staked coins immediately")
       ELSE IF IsSlash(rec) \/ rec.ev = "StakingEndBlock" THEN {}
       ELSE Check("C02", BagOfSeq(gh.unb) = UnbBagOfState(post), "pending unbonding entries changed by " \o rec.ev)
 
@@ -298,27 +319,48 @@ C04_Step(pre, rec, post) ==
 C04_State(s) ==
   UNION {LET ks == PositionsOf(s, a)
              sum == BSum({k \in ks : BIsNum(s.bals[k])}, LAMBDA k : s.bals[k])
-         IN  Check("C04", BLe(sum, BAdd(s.assets[a].total, Cardinality(ks))),
+         IN  CheckK("C04", BLe(sum, BAdd(s.assets[a].total, Cardinality(ks))),
+                   \* K3b: every validator holding shares of the asset was slashed by 100 %: the share total is zero while
+                   \* tokens remain, and the conversion then values every position at the whole staked total
+                   IF IsZero(s.assets[a].vshares) /\ IsPos(s.assets[a].total) THEN "K3b" ELSE "",
                    "reported values of the positions in " \o a \o " sum to " \o sum \o ", more than the staked total " \o s.assets[a].total \o " plus one unit per position")
          : a \in DOMAIN s.assets}
 
 -----------------------------------------------------------------------------
 (* C05 / C12 / C20-balance: probes evaluated on discarded branches of the recorded state *)
 ProbeSet(rec) == {rec.probes[i] : i \in DOMAIN rec.probes}
-C05_Probes(s, rec) ==
-  UNION {IF p.kind = "delegate" THEN Check("C05", p.ok, "a user cannot delegate " \o p.x \o " " \o p.a \o " to " \o p.v \o ": " \o p.err)
-         ELSE IF p.kind = "claim" THEN Check("C05", p.ok, "delegator " \o p.d \o " cannot claim rewards of " \o p.v \o "/" \o p.a \o ": " \o p.err)
-         ELSE IF p.kind = "exit" THEN Check("C05", p.ok, "delegator " \o p.d \o " cannot undelegate the reported balance " \o p.x \o " " \o p.a \o " from " \o p.v \o ": " \o p.err)
+\* the rewards pool is short of what positions can claim (measured by the claim probes of this state)
+ClaimProbes(rec) == {p \in ProbeSet(rec) : p.kind = "claim" /\ p.ok}
+Claimable(rec, rd) == BSum(ClaimProbes(rec), LAMBDA p : BSum({i \in DOMAIN p.paid : p.paid[i].a = rd}, LAMBDA i : p.paid[i].x))
+PendingIn(s, rd) == BSum({v \in DOMAIN s.env.vals : HasMod(s, v)}, LAMBDA v : Get(Pending(s, v), rd))
+Shortfall(s, rec, rd) == BSub(Claimable(rec, rd), BAdd(Get(s.bank.rewards, rd), PendingIn(s, rd)))
+\* which listed finding explains a short pool in this state: K1 after a slash, K2 within the index-rounding budget
+PoolExplained(s, rec, gh) ==
+  IF gh.slashed THEN "K1"
+  ELSE IF \A rd \in DOMAIN s.bank.rewards \cup DOMAIN gh.k2 \cup UNION {{p.paid[i].a : i \in DOMAIN p.paid} : p \in ClaimProbes(rec)} :
+             BLe(Shortfall(s, rec, rd), Get(gh.k2, rd)) THEN "K2"
+  ELSE ""
+\* K3: the validator records delegator shares of the asset but holds no tokens of it (after a 100 % slash); the share
+\* conversion of a new deposit divides by zero
+ZeroValued(s, v, a) == a \in DOMAIN s.assets /\ (NewDelSharesPanics(s.assets[a], Info(s, v), a) \/ ValidatorSharesDivZero(s.assets[a]))
+ProbeKF(s, rec, gh, p) ==
+  IF p.errc = "funds" THEN PoolExplained(s, rec, gh)
+  ELSE IF p.errc = "divzero" /\ p.kind = "delegate" /\ ZeroValued(s, p.v, p.a) THEN "K3"
+  ELSE ""
+C05_Probes(s, rec, gh) ==
+  UNION {IF p.kind = "delegate" THEN CheckK("C05", p.ok, ProbeKF(s, rec, gh, p), "a user cannot delegate " \o p.x \o " " \o p.a \o " to " \o p.v \o ": " \o p.err)
+         ELSE IF p.kind = "claim" THEN CheckK("C05", p.ok, ProbeKF(s, rec, gh, p), "delegator " \o p.d \o " cannot claim rewards of " \o p.v \o "/" \o p.a \o ": " \o p.err)
+         ELSE IF p.kind = "exit" THEN CheckK("C05", p.ok, ProbeKF(s, rec, gh, p), "delegator " \o p.d \o " cannot undelegate the reported balance " \o p.x \o " " \o p.a \o " from " \o p.v \o ": " \o p.err)
          ELSE {} : p \in ProbeSet(rec)}
 
-C12_Probes(s, rec) ==
-  LET claims == {p \in ProbeSet(rec) : p.kind = "claim" /\ p.ok}
-      rds == UNION {{p.paid[i].a : i \in DOMAIN p.paid} : p \in claims}
-      claimable(rd) == BSum(claims, LAMBDA p : BSum({i \in DOMAIN p.paid : p.paid[i].a = rd}, LAMBDA i : p.paid[i].x))
+C12_Probes(s, rec, gh) ==
+  LET rds == UNION {{p.paid[i].a : i \in DOMAIN p.paid} : p \in ClaimProbes(rec)}
       hasAll == \E p \in ProbeSet(rec) : p.kind = "claimAll"
-  IN  UNION {Check("C12", p.ok, "claiming every position in order '" \o p.order \o "' fails: " \o p.err) : p \in {p \in ProbeSet(rec) : p.kind = "claimAll"}}
-      \cup (IF hasAll THEN UNION {Check("C12", BLe(claimable(rd), Get(s.bank.rewards, rd)),
-                         "positions can claim " \o claimable(rd) \o " " \o rd \o " in total but the rewards pool holds " \o Get(s.bank.rewards, rd)) : rd \in rds}
+      kf == PoolExplained(s, rec, gh)
+  IN  UNION {CheckK("C12", p.ok, IF p.errc = "funds" THEN kf ELSE "", "claiming every position in order '" \o p.order \o "' fails: " \o p.err) : p \in {p \in ProbeSet(rec) : p.kind = "claimAll"}}
+      \cup (IF hasAll THEN UNION {CheckK("C12", ~IsPos(Shortfall(s, rec, rd)), kf,
+                         "positions can claim " \o Claimable(rec, rd) \o " " \o rd \o " in total but the rewards pool holds " \o Get(s.bank.rewards, rd) \o
+                         " and the distribution module owes it " \o PendingIn(s, rd)) : rd \in rds}
             ELSE {})
 
 -----------------------------------------------------------------------------
@@ -354,7 +396,7 @@ C09_Step(pre, rec, post) ==
         \cup (IF charged # {} /\ due
               THEN Check("C09", post.params.last = L + n * I /\ post.params.last <= pre.now,
                          "take-rate clock moved from " \o ToString(L) \o " to " \o ToString(post.params.last) \o ", not by n = " \o ToString(n) \o " intervals of " \o ToString(I))
-              ELSE Check("C09", post.params.last <= pre.now, "take-rate clock is ahead of the block time"))
+              ELSE Check("C09", post.params.last \in {L, pre.now}, "take-rate clock moved although nothing was charged"))
         \cup UNION {Check("C09", [k \in PositionsOf(pre, a) |-> pre.dels[k].shares] = [k \in PositionsOf(post, a) |-> post.dels[k].shares]
                                  /\ post.assets[a].vshares = pre.assets[a].vshares,
                           "a take-rate deduction changed share records of " \o a) : a \in charged}
@@ -409,7 +451,7 @@ C15_Step(pre, rec, post, gh) ==
         before == IF rk \in DOMAIN pre.redRec THEN pre.redRec[rk].bal ELSE "0"
     IN  Check("C15", post.assets[e.a].total = pre.assets[e.a].total /\ Get(post.bank.custody, e.a) = Get(pre.bank.custody, e.a),
               "redelegation changed the staked total or custody")
-        \cup Check("C15", \A d \in AllUsers(pre, post) : UserDelta(pre, post, d, e.a) = "0", "redelegation paid out staked coins")
+        \cup Check("C15", PaidOnlyRewards(pre, post, e.a), "redelegation paid out staked coins")
         \cup Check("C15", rk \in DOMAIN post.redRec /\ post.redRec[rk].bal = BAdd(before, e.x)
                           /\ <<e.src, t, e.a, e.dst, e.d>> \in post.redIdx
                           /\ t \in DOMAIN post.redQ /\ (\E j \in DOMAIN post.redQ[t] : post.redQ[t][j] = [d |-> e.d, src |-> e.src, dst |-> e.dst, a |-> e.a, bal |-> e.x]),
@@ -435,7 +477,7 @@ C15_Probes(s, rec, gh) ==
                   \* swept = the entry has been removed by an end-of-block (strictly after maturity)
                   pendingRec == \E k \in DOMAIN s.redRec : k[1] = p.d /\ k[2] = p.a /\ k[3] = p.v
               IN  Check("C15", blocked => ~p.ok, "delegator " \o p.d \o " could redelegate " \o p.a \o " out of " \o p.v \o " while an entry into it is pending")
-                  \cup Check("C15", ~pendingRec /\ ~p.ok => p.err # "redelegation to this validator already in progress; first redelegation to this validator must complete before next redelegation",
+                  \cup Check("C15", ~pendingRec /\ ~p.ok => p.errc # "transitive",
                              "onward redelegation out of " \o p.v \o " is still blocked although no pending entry into it exists")
          : p \in ProbeSet(rec)}
 
@@ -475,9 +517,13 @@ BondedVShares(s, a) == BSum({v \in DOMAIN s.vals : IsBonded(s, v)}, LAMBDA v : G
 TargetRat(s, v) ==
   RSumSet({a \in DOMAIN s.assets : Started(s.assets[a], s.now) /\ IsPos(Get(Info(s, v).vshares, a)) /\ IsPos(BondedVShares(s, a))},
           LAMBDA a : RMul(RMul(Rat(s.assets[a].weight, ONE), Rat(NativeOf(s), ONE)), Rat(Get(Info(s, v).vshares, a), BondedVShares(s, a))))
+WeightSum(s, v) == RSumSet({a \in DOMAIN s.assets : Started(s.assets[a], s.now) /\ IsPos(Get(Info(s, v).vshares, a))}, LAMBDA a : Rat(s.assets[a].weight, ONE))
 C10_Step(pre, rec, post) ==
   IF rec.ev # "EndBlock" \/ ~rec.res.ok THEN {}
-  ELSE UNION {Check("C10", Within(Rat(ModTok(post, v), ONE), TargetRat(post, v), "2"),
+  ELSE UNION {CheckK("C10", Within(Rat(ModTok(post, v), ONE), TargetRat(post, v), "2"),
+                     \* K7: the rebalancer rounds the native bonded amount to whole units before multiplying by the reward
+                     \* weights and truncates the adjustment: the deviation is bounded by 1 + the sum of the weights
+                     IF Within(Rat(ModTok(post, v), ONE), TargetRat(post, v), BAdd("1", RCeil(WeightSum(post, v)))) THEN "K7" ELSE "",
                     "after end-of-block, bonded validator " \o v \o " carries alliance stake " \o ModTok(post, v) \o "e-18, not the target within two units")
               : v \in {v \in BondedSet(post) : ~EnvVal(post, v).jailed}}
        \cup UNION {Check("C10", ~IsBonded(pre, v) /\ ~IsBonded(post, v) => ModTok(post, v) = ModTok(pre, v) /\ EnvVal(post, v).modShares = EnvVal(pre, v).modShares,
@@ -517,7 +563,7 @@ DelRefBag(s, sel(_)) ==
   LET ks == {k \in DOMAIN s.dels : sel(k)}
       tup(k) == <<k[1], k[2], k[3], s.bals[k], s.dels[k].shares>>
   IN  [r \in {tup(k) : k \in ks} |-> 1]
-C20_Probes(s, rec) ==
+C20_Probes(s, rec, gh) ==
   UNION {
     CASE p.kind = "qUnb" -> Check("C20", p.ok /\ ItemBag(p.items, LAMBDA x : <<x.v, x.a, x.x, x.t>>) = UnbRefBag(s, LAMBDA en : en.d = p.d /\ en.v = p.v /\ en.a = p.a),
                                   "unbondings(" \o p.d \o "," \o p.v \o "," \o p.a \o ") does not return exactly the pending entries of that delegator, validator and denom")
@@ -537,13 +583,15 @@ C20_Probes(s, rec) ==
                                   "all delegations page size " \o ToString(p.limit) \o " does not return exactly the delegation records")
       [] p.kind = "bindDelegation" -> Check("C20", p.ok /\ <<p.d, p.v, p.a>> \in DOMAIN s.bals /\ p.val = s.bals[<<p.d, p.v, p.a>>],
                                   "contract binding reports delegation amount " \o p.val \o ", the gRPC query another value")
-      [] p.kind = "exit" -> Check("C20", p.ok, "the reported balance " \o p.x \o " of " \o p.d \o " on " \o p.v \o "/" \o p.a \o " cannot be undelegated: " \o p.err)
+      [] p.kind = "exit" -> CheckK("C20", p.ok, ProbeKF(s, rec, gh, p), "the reported balance " \o p.x \o " of " \o p.d \o " on " \o p.v \o "/" \o p.a \o " cannot be undelegated: " \o p.err)
       [] p.kind = "undelPlus" -> Check("C20", ~p.ok, "more than the reported balance (" \o p.x \o ") of " \o p.d \o " on " \o p.v \o "/" \o p.a \o " can be undelegated")
       [] p.kind = "bindAlliance" -> Check("C20", p.ok /\ p.vals.weight = p.vals.g_weight /\ p.vals.take = p.vals.g_take /\ p.vals.total = p.vals.g_total
                                                  /\ p.vals.vshares = p.vals.g_vshares /\ p.vals.rate = p.vals.g_rate /\ p.vals.wmin = p.vals.g_wmin /\ p.vals.wmax = p.vals.g_wmax
                                                  /\ p.vals.init = p.vals.g_init,
                                   "contract binding reports other asset fields than the gRPC query for " \o p.a)
-                            \cup Check("C20", p.ok => (p.vals.start \in {p.vals.g_start_unix, p.vals.g_start_nanos} /\ p.vals.lastChg \in {p.vals.g_lastChg_unix, p.vals.g_lastChg_nanos}),
+                            \cup CheckK("C20", p.ok => (p.vals.start \in {p.vals.g_start_unix, p.vals.g_start_nanos} /\ p.vals.lastChg \in {p.vals.g_lastChg_unix, p.vals.g_lastChg_nanos}),
+                                  \* K6: the binding reports Time.Nanosecond(), the nanoseconds within the second
+                                  IF p.ok /\ p.vals.start = p.vals.g_start_nsec /\ p.vals.lastChg = p.vals.g_lastChg_nsec THEN "K6" ELSE "",
                                   "contract binding reports time fields of " \o p.a \o " that are not the asset's times (start " \o (IF p.ok THEN p.vals.start ELSE "-") \o ")")
       [] OTHER -> {}
     : p \in ProbeSet(rec)}
@@ -558,12 +606,14 @@ ObsView(s) == [StoreView(s) EXCEPT !.redQ = QueueView(s)]
 C18_Step(pre, rec, post) ==
   IF rec.ev # "ExportImport" THEN {}
   ELSE Check("C18", rec.res.ok, "export/import failed: " \o rec.res.err)
-       \cup UNION {Check("C18", ObsView(pre)[f] = ObsView(post)[f], "after export and re-import the module's " \o f \o " differ from the original") : f \in DOMAIN ObsView(pre)}
+       \cup UNION {Check("C18", ObsView(pre)[f] = ObsView(post)[f], "after export and re-import the module's " \o f \o " differ from the original") : f \in DOMAIN ObsView(pre) \ {"flag"}}
+       \* a rebalance that is pending must still be pending; an additional one is a no-op at a fix-point
+       \cup Check("C18", pre.flag => post.flag, "a pending rebalance is lost by export and re-import")
 
 -----------------------------------------------------------------------------
 JudgeState(s, rec, gh) ==
   C01_State(s) \cup C03_State(s) \cup AssetValid_State(s) \cup C15_State(s) \cup C02_State(s) \cup C04_State(s)
-  \cup C05_Probes(s, rec) \cup C12_Probes(s, rec) \cup C20_Probes(s, rec) \cup C11_Probes(s, rec) \cup C15_Probes(s, rec, gh)
+  \cup C05_Probes(s, rec, gh) \cup C12_Probes(s, rec, gh) \cup C20_Probes(s, rec, gh) \cup C11_Probes(s, rec) \cup C15_Probes(s, rec, gh)
 
 Judge(pre, rec, post, gh, gh2) ==
   JudgeState(post, rec, gh2)
@@ -584,4 +634,11 @@ Covers(pre, rec, post, gh, gh2) ==
   \cup (IF rec.ev = "EndBlock" /\ pre.flag THEN {"rebalance"} ELSE {})
   \cup (IF rec.res.ok /\ rec.ev \in {"Delegate", "Undelegate", "Redelegate", "Claim"} THEN {rec.ev} ELSE {})
   \cup (IF rec.ev \in GovEvents THEN {IF rec.res.ok THEN "gov-accept" ELSE "gov-reject"} ELSE {})
+  \cup (IF rec.ev = "EndBlock" THEN {"endblock"} ELSE {})
+  \cup (IF rec.ev = "ExportImport" THEN {"export-import"} ELSE {})
+  \cup (IF \E p \in ProbeSet(rec) : p.kind \in {"delegate", "claim", "exit"} THEN {"probe-liveness"} ELSE {})
+  \cup (IF \E p \in ProbeSet(rec) : p.kind = "claimAll" THEN {"probe-claimall"} ELSE {})
+  \cup (IF \E p \in ProbeSet(rec) : p.kind = "qUnb" THEN {"probe-queries"} ELSE {})
+  \cup (IF \E p \in ProbeSet(rec) : p.kind = "redelegate" THEN {"probe-redeleg"} ELSE {})
+  \cup (IF \E p \in ProbeSet(rec) : p.kind = "supplyOf" THEN {"probe-supply"} ELSE {})
 =============================================================================
